@@ -129,3 +129,99 @@ Proof.
     + cbn [skipn]. rewrite <- Hl, firstn_all. exact Hu.
     + specialize (IH a). rewrite E2 in IH. simpl in IH. apply IH; auto.
 Qed.
+
+(* ---- no lost writes: an element holds what the last accepted write covering it stored, whatever other sessions wrote to
+   other elements in between (a write stores exactly its own range: no read-modify-write of the neighbours) ---- *)
+Lemma splice_length : forall a s vs, (s + length vs <= length a)%nat -> length (splice a s vs) = length a.
+Proof.
+  induction a as [|x a IH]; intros s vs H.
+  - destruct s; [|reflexivity]. destruct vs; [reflexivity | cbn [length Nat.add] in H; lia].
+  - destruct s.
+    + cbn [splice]. rewrite app_length, skipn_length. cbn [Nat.add] in H. lia.
+    + cbn [splice length]. f_equal. apply IH. cbn [length Nat.add] in H. lia.
+Qed.
+
+Lemma nth_skipn_plus : forall (l : list Z) n i d, nth i (skipn n l) d = nth (n + i) l d.
+Proof.
+  induction l as [|x l IH]; intros n i d.
+  - rewrite skipn_nil. destruct i, n; reflexivity.
+  - destruct n; [reflexivity|]. cbn [skipn Nat.add nth]. apply IH.
+Qed.
+
+Lemma splice_nth : forall a s vs i d, (s + length vs <= length a)%nat ->
+  nth i (splice a s vs) d = if (s <=? i)%nat && (i <? s + length vs)%nat then nth (i - s) vs d else nth i a d.
+Proof.
+  induction a as [|x a IH]; intros s vs i d H.
+  - destruct s; simpl in *.
+    + destruct vs; simpl in *; [|lia]. destruct i; reflexivity.
+    + lia.
+  - destruct s.
+    + cbn [splice Nat.add Nat.leb andb]. rewrite Nat.sub_0_r.
+      destruct (i <? length vs)%nat eqn:E.
+      * apply Nat.ltb_lt in E. apply app_nth1. exact E.
+      * apply Nat.ltb_ge in E. rewrite app_nth2 by exact E. rewrite nth_skipn_plus. f_equal. lia.
+    + cbn [splice]. destruct i as [|i].
+      * reflexivity.
+      * cbn [nth]. rewrite IH by (simpl in H; lia).
+        replace (S s <=? S i)%nat with (s <=? i)%nat by reflexivity.
+        replace (S i <? S s + length vs)%nat with (i <? s + length vs)%nat by reflexivity.
+        replace (S i - S s)%nat with (i - s)%nat by reflexivity. reflexivity.
+Qed.
+
+Definition covers (o : aop) (i : nat) : bool :=
+  match o with AWrite s vs => (s <=? i)%nat && (i <? s + length vs)%nat | ARead _ _ => false end.
+
+Lemma astep_length a o : length (fst (astep a o)) = length a.
+Proof.
+  destruct o as [s vs|s n]; unfold astep.
+  - destruct (s + length vs <=? length a)%nat eqn:E; [|reflexivity]. apply Nat.leb_le in E. apply splice_length. exact E.
+  - destruct (_ <=? _)%nat; reflexivity.
+Qed.
+
+Lemma astep_keeps a o i d : covers o i = false -> nth i (fst (astep a o)) d = nth i a d.
+Proof.
+  destruct o as [s vs|s n]; unfold astep, covers; intros H.
+  - destruct (s + length vs <=? length a)%nat eqn:E; [|reflexivity]. apply Nat.leb_le in E.
+    cbn [fst]. rewrite splice_nth by exact E. rewrite H. reflexivity.
+  - destruct (_ <=? _)%nat; reflexivity.
+Qed.
+
+Lemma arun_keeps : forall sched a i d, Forall (fun so => covers (snd so) i = false) sched ->
+  nth i (fst (arun a sched)) d = nth i a d /\ length (fst (arun a sched)) = length a.
+Proof.
+  induction sched as [|[sid o] t IH]; intros a i d H; [split; reflexivity|].
+  apply Forall_cons_iff in H as [Ho Ht]. cbn [snd] in Ho. cbn [arun].
+  destruct (astep a o) as [a1 r] eqn:E. destruct (arun a1 t) as [a2 l] eqn:E2. cbn [fst].
+  specialize (IH a1 i d Ht). rewrite E2 in IH. cbn [fst] in IH. destruct IH as [IH1 IH2].
+  pose proof (astep_keeps a o i d Ho) as K. pose proof (astep_length a o) as L. rewrite E in K, L. cbn [fst] in K, L.
+  split; congruence.
+Qed.
+
+Lemma arun_app a s1 s2 : fst (arun a (s1 ++ s2)) = fst (arun (fst (arun a s1)) s2).
+Proof.
+  revert a. induction s1 as [|[sid o] t IH]; intros a; [reflexivity|].
+  cbn [app arun]. destruct (astep a o) as [a1 r] eqn:E.
+  specialize (IH a1). destruct (arun a1 (t ++ s2)) as [a2 l] eqn:E2. destruct (arun a1 t) as [a3 l3] eqn:E3.
+  cbn [fst] in *. exact IH.
+Qed.
+
+Theorem last_write_wins before sid s vs after a i d :
+  (s + length vs <= length a)%nat -> (s <= i < s + length vs)%nat ->
+  Forall (fun so => covers (snd so) i = false) after ->
+  nth i (fst (arun a (before ++ (sid, AWrite s vs) :: after))) d = nth (i - s) vs d.
+Proof.
+  intros Hfit Hin Hafter.
+  rewrite arun_app. set (a0 := fst (arun a before)).
+  assert (length a0 = length a) as L0.
+  { clear. subst a0. revert a. induction before as [|[sd o] t IH]; intros a; [reflexivity|].
+    cbn [arun]. destruct (astep a o) as [a1 r] eqn:E. specialize (IH a1). destruct (arun a1 t) as [a2 l]. cbn [fst] in *.
+    pose proof (astep_length a o) as L. rewrite E in L. cbn [fst] in L. congruence. }
+  cbn [arun]. unfold astep at 1.
+  assert ((s + length vs <=? length a0)%nat = true) as -> by (apply Nat.leb_le; lia).
+  destruct (arun (splice a0 s vs) after) as [a2 l] eqn:E2. cbn [fst].
+  pose proof (arun_keeps after (splice a0 s vs) i d Hafter) as [K _]. rewrite E2 in K. cbn [fst] in K. rewrite K.
+  rewrite splice_nth by lia.
+  assert (((s <=? i)%nat && (i <? s + length vs)%nat) = true) as ->
+    by (apply andb_true_iff; split; [apply Nat.leb_le | apply Nat.ltb_lt]; lia).
+  reflexivity.
+Qed.
